@@ -74,10 +74,10 @@ fn count_bits_set_in_matrix(matrix: &[u64]) -> u32 {
 }
 
 fn determine_flavor(lg_k: u8, num_coupons: u32) -> Flavor {
-    let k = 1 << lg_k;
-    let c2 = num_coupons << 1;
-    let c8 = num_coupons << 3;
-    let c32 = num_coupons << 5;
+    let k: u64 = 1 << lg_k;
+    let c2 = (num_coupons as u64) << 1;
+    let c8 = (num_coupons as u64) << 3;
+    let c32 = (num_coupons as u64) << 5;
     if num_coupons == 0 {
         Flavor::Empty
     } else if c32 < (3 * k) {
